@@ -96,6 +96,7 @@ type Config struct {
 	PlainRegValues  bool     `json:"plain_reg_values,omitempty"`  // the application's body reader returns register values that implement UserValuer only (no ArbitraryValuer)
 	WriterWrap      string   `json:"writer_wrap,omitempty"`       // an application middleware right behind LoadClientStateMiddleware wraps the response writer (compression, metrics): "underlying" exposes it through UnderlyingResponseWriter(), "unwrap" through Unwrap() only; "controller": no wrapper, the middleware sets a write deadline through http.ResponseController
 	App2FAHook      bool     `json:"app_2fa_hook,omitempty"`      // the application hooks After(EventTwoFactorAdded) while configuring authboss (before the 2FA Setup calls) and answers the request itself (a "2FA is on now" page)
+	ExpireOutside   bool     `json:"expire_outside,omitempty"`    // with Middleware "remember": the application also put expire.Middleware in front of it (the expire docs advise against the pair; what each promises on its own must still hold where they do not contradict each other - C10 uses it)
 	AppAuthFailHook bool     `json:"app_authfail_hook,omitempty"` // the application hooks After(EventAuthFail) while configuring authboss (before Init, so ahead of the modules' own listeners) and answers the failed attempt itself
 	CustomHasher    bool     `json:"custom_hasher,omitempty"`     // Core.Hasher is the application's own (salted SHA-256, "$ssha256$salt$digest"), not bcrypt
 	StoreZoneH      int      `json:"store_zone_h,omitempty"`      // the storer hands instants back in a fixed zone this many hours off UTC (a database driver's session time zone); 0 = UTC
@@ -869,6 +870,9 @@ func (w *World) buildHandler() {
 		} else {
 			app = expire.Middleware(ab)(app)
 		}
+	}
+	if w.Cfg.Middleware == "remember" && w.Cfg.ExpireOutside {
+		app = expire.Middleware(ab)(app)
 	}
 	if lk := w.Cfg.UpstreamLookup; lk != 0 {
 		next := app
